@@ -107,6 +107,7 @@ theorem Sim.step {cfg : Cfg ρ} (hr : cfg.Repaired) {s : State ρ} {sp : Holders
         have hal : sp.alive[i]? = some true := by
           rw [ha, alive_lookup]; exact ⟨c, hc, hconn'⟩
         obtain ⟨h1, _, h3, _, _, _, _⟩ := stepDisconnect_fields cfg s i effs c hc hconn'
+          (disconnectOk_of_inv inv i c hc hconn')
         simp only [Txdbus.BusRoute.step, Holders.step, if_pos hal]
         refine ⟨?_, ?_⟩
         · show sp.alive.set i false = (stepDisconnect cfg s i effs).1.conns.map (·.isConnected)
